@@ -118,41 +118,32 @@ class EIG(BaseRoutine):
 
     def _reorder(self):
         """
-        reorder As by moving rows and cols associated with zero time constants to the end.
+        Reorder the partially reduced matrix by moving rows and cols associated with zero time
+        constants to the end.
 
-        Returns `fx`, `fy`, `gx`, `gy`, `Tf`.
+        Returns `fx`, `fy`, `gx`, `gy`, `Tf` for the second reduction, in which the states with
+        zero time constants are treated as algebraic variables.
         """
         dae = self.system.dae
-        rows = np.arange(dae.n, dtype=int)
-        cols = np.arange(dae.n, dtype=int)
-        vals = np.ones(dae.n, dtype=float)
 
-        swaps = []
-        bidx = self.nz_counts
-        for ii in range(dae.n - self.nz_counts):
-            if ii in self.zstate_idx:
-                while (bidx in self.zstate_idx):
-                    bidx += 1
-                cols[ii] = bidx
-                rows[bidx] = ii
-                swaps.append((ii, bidx))
+        # states with non-zero time constants keep their order and come first
+        nz_idx = np.setdiff1d(np.arange(dae.n, dtype=int), self.zstate_idx)
+        order = np.concatenate([nz_idx, self.zstate_idx]).astype(int)
 
-        # swap the variable names
-        for fr, bk in swaps:
-            bk_name = self.x_name[bk]
-            self.x_name[fr] = bk_name
-        self.x_name = self.x_name[:self.nz_counts]
+        self.x_name = self.x_name[nz_idx]
 
-        # compute the permutation matrix for `As` containing non-states
-        perm = spmatrix(matrix(vals), matrix(rows), matrix(cols))
-        As_perm = perm * sparse(self.As) * perm
-        self.As_perm = As_perm
+        # Use the matrix *before* it was scaled by ``1 / Tf``: the second reduction scales the
+        # remaining rows by their time constants, which must happen only once.
+        fxy = np.array(matrix(self.fxy))
+        perm = fxy[np.ix_(order, order)]
+        self.As_perm = sparse(matrix(perm))
 
-        nfx = As_perm[:self.nz_counts, :self.nz_counts]
-        nfy = As_perm[:self.nz_counts, self.nz_counts:]
-        ngx = As_perm[self.nz_counts:, :self.nz_counts]
-        ngy = As_perm[self.nz_counts:, self.nz_counts:]
-        nTf = np.delete(self.system.dae.Tf, self.zstate_idx)
+        nz = self.nz_counts
+        nfx = sparse(matrix(perm[:nz, :nz]))
+        nfy = sparse(matrix(perm[:nz, nz:]))
+        ngx = sparse(matrix(perm[nz:, :nz]))
+        ngy = sparse(matrix(perm[nz:, nz:]))
+        nTf = dae.Tf[nz_idx]
 
         return nfx, nfy, ngx, ngy, nTf
 
